@@ -416,6 +416,35 @@ func TestC11(t *testing.T) {
 						r.Violation("copied-system", c11Case{seed, 0}, fmt.Errorf("using a System made by struct copy + CreateEmulator changed %s[$%X] of the System it was copied from", cl, at))
 					}
 				}
+				// after all that: the System the second one was copied from still answers from its own arrays, and the CPU of
+				// each System (its exported Bus field is how it sees memory) reads what the System's bus reads
+				for _, a := range []uint32{0x008000, 0x00FFC0, 0x3FFFFF, 0x808000, 0xBF8123, 0x7E0000, 0x7F1234, 0x7FFFFF, 0x001FFF, 0x800000, 0x3F1000, 0x700000, 0x717FFF, 0xF00123, 0xF17FFF} {
+					if failed {
+						break
+					}
+					if q2.parent != nil {
+						if err := q2.parent.readOnly(a); err != nil {
+							r.Violation("copied-system", c11Case{seed, a}, fmt.Errorf("the System that was copied, after the copy had been re-created and used: %v", err))
+							failed = true
+							break
+						}
+					}
+					for k, sys := range []*c11Sys{q, q2} {
+						if sys.s.CPU.Bus == nil {
+							r.Violation("cpu-view", c11Case{seed, a}, fmt.Errorf("System %d: CPU.Bus is nil after CreateEmulator", k))
+							failed = true
+							break
+						}
+						var viaCPU, viaSys byte
+						p1 := rig.Safe(func() error { viaCPU = sys.s.CPU.Bus.EaRead(a); return nil })
+						p2 := rig.Safe(func() error { viaSys = sys.s.Bus.EaRead(a); return nil })
+						if (p1 == nil) != (p2 == nil) || viaCPU != viaSys {
+							r.Violation("cpu-view", c11Case{seed, a}, fmt.Errorf("System %d (0 = fresh, 1 = copied and re-created): its CPU reads %02x (%v) at $%06X, its bus %02x (%v): the CPU does not run on the System's own memory map", k, viaCPU, p1, a, viaSys, p2))
+							failed = true
+							break
+						}
+					}
+				}
 				ev.Bulk(1<<24, inT+outAccepted)
 				ev.ClassN("inside-console-layout", inT)
 				ev.ClassN("outside-layout-write-accepted(io)", outAccepted)
